@@ -578,7 +578,7 @@ def run_impl(case):
         obs.extend(render(I, s))
     if res["error"]:
         cls = res["error"]["cls"]
-        obs.append("error " + {"KeyError": "key", "RuntimeError": "runtime", "TypeError": "type"}.get(cls, "other:" + cls))
+        obs.append("error " + {"KeyError": "key", "AttributeError": "attr", "RuntimeError": "runtime", "TypeError": "type"}.get(cls, "other:" + cls))
     if case.get("malformed"):
         junk = ["conn 0 x i 1 0", "pickle 2 0 0", "flags 99 0 0 - -", "din 0 a b c", "node 0 - 0 0 q", "frobnicate",
                 "conn 0 d i 1 0 2", "fileload 0 0"]
